@@ -33,14 +33,25 @@ def apply(F):
                 open spec fn s_dh(sk: Bytes, pk: Bytes) -> Option<Bytes> { Some(ec_dh::<CurveTy>(sk, pk)) }
                 open spec fn s_derive(nh: nat, suite_id: Bytes, ikm: Bytes) -> (Bytes, Bytes) {
                     let nsk = tnum::<$privkey_size>();
-                    let c = nist_dkp_first(|b: Bytes| scalar_ok::<CurveTy>(b), nh, suite_id, ikm, nsk, $keygen_bitmask, 0);
-                    let sk = dkp_candidate_spec(nh, suite_id, ikm, c.unwrap(), nsk, $keygen_bitmask);
+                    let c = choose|c: nat| nist_dkp_is_first::<CurveTy>(nh, suite_id, ikm, nsk, $keygen_bitmask, c);
+                    let sk = dkp_candidate_spec(nh, suite_id, ikm, c, nsk, $keygen_bitmask);
                     (sk, ec_base::<CurveTy>(sk))
                 }
 ''')
     F.contract(X, r'fn sk_to_pk\b', ret='r', clauses=SK_TO_PK + ',\n')
     F.contract(X, r'fn dh\b', ret='r', attrs=['#[verifier::external_body]'], discharged_by='TRUSTED (one-line delegation to elliptic_curve::ecdh::diffie_hellman; its impl-Borrow signature is outside Verus)', clauses=DH + ',\n')
-    F.contract(X, r'fn derive_keypair<Kdf: KdfTrait>', ret='r', attrs=['#[verifier::external_body]'], discharged_by='OPEN (NIST candidate loop not yet under contract)', clauses=DERIVE + ',\n')
+    F.contract(X, r'fn derive_keypair<Kdf: KdfTrait>', ret='r', clauses=DERIVE + ',\n')
+    # N5: the only loop under contract (ghost invariant between the loop header and its body)
+    F.loop_invariant(X, r'fn derive_keypair<Kdf: KdfTrait>', r'for counter in\b', '''
+                        invariant
+                            kdf_ok::<Kdf>(),
+                            hkdf_ctx.prk() == dkp_prk_spec(nh_of::<Kdf::HashImpl>(), suite_id@, ikm@),
+                            buf.gv().len() == tnum::<$privkey_size>(),
+                            forall|d: nat| d < counter ==> !(#[trigger] nist_cand_ok::<CurveTy>(nh_of::<Kdf::HashImpl>(), suite_id@, ikm@, d, tnum::<$privkey_size>(), $keygen_bitmask)),
+                            // trigger seeding only (both clauses are `true`): make the solver consider the current counter
+                            trig(nist_cand_ok::<CurveTy>(nh_of::<Kdf::HashImpl>(), suite_id@, ikm@, counter as nat, tnum::<$privkey_size>(), $keygen_bitmask)),
+                            trig(nist_dkp_is_first::<CurveTy>(nh_of::<Kdf::HashImpl>(), suite_id@, ikm@, tnum::<$privkey_size>(), $keygen_bitmask, counter as nat)),
+''')
     F.wrap(M, r'pub struct \$dh_name\b')
     F.wrap(M, X[-1])
     F.append('''
